@@ -17,7 +17,8 @@ RULE_TEXT = ("inventory of may-panic sites, loops, recursion cycles, lock region
 EXPLANATION = ("D1 no unguarded crash site; D2 every loop terminates; D3 no unguarded may-panic site inside a lock region of the shared tables (a failure "
                "cannot poison later computations); D4 every float division has a divisor shown non-zero by constant/clamp/dominating comparison or an "
                "exception derived from the sane-model premise; D5 the result type serialises with string-like map keys")
-DECIDED = ["D1 no crash site beyond triage", "D2 no hang", "D3 no panic under a held table lock", "D4 finite on sane models (divisor audit)", "D5 result serialises"]
+DECIDED = ["D1 no crash site beyond triage", "D2 no hang", "D3 no panic under a held table lock", "D4 finite on sane models (divisor audit)", "D5 result serialises",
+           "D6 the serde attributes of the indicator types pair every omitted value with a default (JSON loads back)"]
 UNDECIDED = ["that the exceptions' premises hold for a given model (that is what 'sane' assumes)", "NaN propagation from non-finite inputs"]
 ASSUMPTIONS = ["a model that loads from JSON has arbitrary ids and collections; a sane model is referentially closed with positive sizes and non-negative data"]
 LEVEL_TEXT = ("Audit with triage over the complete reachable indicator code: every may-panic construct, loop, recursion cycle, lock region and float division is "
